@@ -265,8 +265,11 @@ func configCoveringAdvertised(conf *Config, p *wire.TransportParameters) *Config
 	c.InitialStreamReceiveWindow = max(c.InitialStreamReceiveWindow,
 		uint64(max(p.InitialMaxStreamDataBidiLocal, p.InitialMaxStreamDataBidiRemote, p.InitialMaxStreamDataUni)))
 	c.MaxStreamReceiveWindow = max(c.MaxStreamReceiveWindow, c.InitialStreamReceiveWindow)
-	c.MaxIncomingStreams = max(c.MaxIncomingStreams, int64(p.MaxBidiStreamNum))
-	c.MaxIncomingUniStreams = max(c.MaxIncomingUniStreams, int64(p.MaxUniStreamNum))
+	// The stream limits are enforced exactly as advertised: a larger Config value would let the peer
+	// open streams beyond the MAX_STREAMS it was told (no STREAM_LIMIT_ERROR), a smaller one would
+	// refuse streams it was promised. (For parameters derived from the Config this is the identity.)
+	c.MaxIncomingStreams = int64(p.MaxBidiStreamNum)
+	c.MaxIncomingUniStreams = int64(p.MaxUniStreamNum)
 	c.EnableDatagrams = c.EnableDatagrams || p.MaxDatagramFrameSize > 0
 	c.MaxIdleTimeout = max(c.MaxIdleTimeout, p.MaxIdleTimeout)
 	return c
